@@ -106,6 +106,23 @@ pub fn run(args: &Args) {
             out.case("tol", &format!("({}, {}, {}, {}, {}, {})", kind, o(&tol), zlist(&ds), zlist(&rs), amount, supply), &obs(&r, |_| vec![]), replay);
         }
     }
+    // corpus (run after the generated streams above, before the generated histories: their generator state is untouched): a pool whose
+    // pending protocol fees are lopsided (~2 % of one reserve); deposits at the true reserve ratio with tolerances 0 .. 0.5 % are accepted,
+    // deposits 2 % off are refused with 0.5 % and accepted with 5 %
+    for kinds in [[false, false], [false, true]] {
+        let ms = Some(DEC / 2);
+        let case = PairCase { kinds, fab: false, decs: [6, 6], fees: (DEC / 5, 3 * DEC / 1000, 0), ops: vec![
+            POp::Provide { who: 1, d0: 1_000_000_000, d1: 1_000_000_000, tol: None, receiver: None },
+            POp::Swap { who: 2, dir: false, x: 100_000_000, belief: None, max_spread: ms, to: None },
+            // reserves now 1 100 000 000 : 909 363 637 (balance of the second asset 927 545 455, of which 18 181 818 are pending fees)
+            POp::Provide { who: 3, d0: 110_000_000, d1: 90_936_364, tol: Some(DEC / 200), receiver: None },
+            POp::Provide { who: 3, d0: 11_000_000, d1: 9_093_636, tol: Some(DEC / 1000), receiver: None },
+            POp::Provide { who: 4, d0: 110_000_000, d1: 92_754_545, tol: Some(DEC / 200), receiver: None },
+            POp::Provide { who: 4, d0: 110_000_000, d1: 92_754_545, tol: Some(DEC / 20), receiver: None },
+            POp::Withdraw { who: 3, a: 50_000_000 },
+        ]};
+        if let Some(r) = run_case(&mut out, "C15", &case) { out.case("pairhist", &case.coq(), &r.obs, case.json()); }
+    }
     let bias = Bias { tiny_swaps: false, spreads: true, toggles: false };
     for c in 0..args.n {
         let len = 5 + rng.below(25) as usize;
